@@ -150,18 +150,22 @@ def _namemode_templates(_):
     import tcv
 
     tcv.quiet_library()
-    desc = families.namemode()
-    jf = judge(desc, None)
     res = Result()
-    for slot in (0, 1):
-        for fs in (['a'], ['b'], ['c'], ['a', 'c']):
-            for rec, dele in product((False, True), repeat=2):
-                h = [['new', 0, 'exp'], ['value', 0, 'c'], ['new', 1, 'exp_big'], ['value', 1, 'c'], ['cforce', slot, fs, rec, dele], ['inspect', 0], ['inspect', 1],
-                     ['restart'], ['new', 0, 'exp'], ['new', 1, 'exp_big'], ['inspect', 0], ['inspect', 1], ['value', 0, 'c'], ['value', 1, 'c'], ['value', 1, 'a'], ['value', 0, 'a']]
-                vs, c, ov = histories.run_history(desc, h, jf, parameter_mode=False)
-                res.add('evaluations')
-                res.add('transitions', len(h))
-                res.violations.extend(vs[:2])
+    # second names: one that merely extends the first, and the names the library gives to its own temporaries
+    from tcv.checks.c04 import NAMEMODE_OTHERS, namemode_desc
+    for second, ck in NAMEMODE_OTHERS:
+        desc = namemode_desc(second, ck)
+        jf = judge(desc, None)
+        for slot in (0, 1):
+            for fs in (['a'], ['b'], ['c'], ['a', 'c']):
+                for rec, dele in product((False, True), repeat=2):
+                    tail = [['value', 0, 'c'], ['value', 1, 'c']] if (rec or not dele) else []   # forced, not yet recomputed: do it now, both results stored side by side
+                    h = [['new', 0, 'exp'], ['value', 0, 'c'], ['new', 1, second], ['value', 1, 'c'], ['cforce', slot, fs, rec, dele], ['inspect', 0], ['inspect', 1]] + tail + [
+                         ['restart'], ['new', 0, 'exp'], ['new', 1, second], ['inspect', 0], ['inspect', 1], ['value', 0, 'c'], ['value', 1, 'c'], ['value', 1, 'a'], ['value', 0, 'a']]
+                    vs, c, ov = histories.run_history(desc, h, jf, parameter_mode=False)
+                    res.add('evaluations')
+                    res.add('transitions', len(h))
+                    res.violations.extend(vs[:2])
     return res
 
 
@@ -239,5 +243,5 @@ def replay(case):
 
     tcv.quiet_library()
     desc = case['desc']
-    vs, c, ov = histories.run_history(desc, case['hist'], judge(desc, None), parameter_mode=desc['name'] != 'namemode')
+    vs, c, ov = histories.run_history(desc, case['hist'], judge(desc, None), parameter_mode=not desc['name'].startswith('namemode'))
     return vs
